@@ -336,6 +336,9 @@ static int cond_get_exp (int priority) {
       if (!ispunct (c = exgetc ()))
         break;
 #endif
+      /* the operator table covers the printable ASCII range only (bytes above 127 are negative chars here) */
+      if (c < ' ' || c > '~')
+        break;
       x = optab1[c];
       if (!x)
         break;
